@@ -117,6 +117,7 @@ func histFiles(ext string) map[string]string {
 		"repeats" + ext:         "{{ pattern.repeat(n) }}|{{ amount.decimal(sep, places) }}",
 		"args" + ext:            "{{ word.at(-back) }}|{{ shown.then(!muted, \"n/a\") }}|{{ -n }}|{{ word.at(back - 1) }}|{{ [1, 2, 3].slice(-(back), 3) }}|@each(w in [word])@if(!muted){{ w.repeat(-(-back)) }}@end@end",
 		"item" + ext:            "item {{ it.name }}/{{ it.qty }} {{ it }}",
+		"strayinsert" + ext:     "@if(show)@insert(\"title\", \"T\")<b>{{ n }}</b><i>tail</i>@end|@each(k in [1, 2])@insert(\"x\")y@end({{ k }})<u>u</u>@end",
 		"box" + ext:             "{{ {left: -shift, unit: \"px\"}.left }}|{{ [-shift, !flag, -1] }}|{{ {a: {b: -shift}}.a.b }}|@each(k in [1, 2]){{ {v: -k, w: !flag}.v }}@end|{{ {on: !flag}.on }}",
 		"ratio" + ext:           "{{ total / count }}",
 		"shapes" + ext:          "{{ [1, [2, [n]]] }}|{{ {a: {b: {c: n}}}.a.b.c }}|{{ \"abcdef\".at(n) }}|{{ \"x\".repeat(n) }}|{{ [1, 2, 3, 4].slice(n).len() }}|{{ 5.decimal(\".\", n) }}|{{ true.then(n, 0) }}|{{ false.then(0, s) }}|{{ \"a,b\".split(\",\").join(s) }}|{{ [s].contains(\"k\") ? 1 : 2 }}|{{ \"kz\".contains(s) }}|{{ (1 > 0) ? n : 0 }}|{{ -n }}|{{ !b }}|{{ [n, 0][0] }}|{{ {k: n, j: s}.k }}|{{ \"s\" + s }}|{{ 1 + n * 2 }}|{{ 1.5 * n.float() }}|{{ [[s, \"x\"], [n]][0][0] }}|{{ {list: [n, {deep: s}]}.list[1].deep }}|{{ \"%d\".len() + n }}|{{ [\"p\", \"q\", \"r\", \"s\"][n] }}|{{ \"abc\".truncate(n, s) }}|{{ [3, 1, 2].contains(n) }}|{{ n.str() + \"!\" }}|{{ b ? \"yes\" : \"no\" }}|{{ (b ? [1] : [1, 2]).len() }}|{{ [1, 2].append(n).len() }}|{{ [0].prepend(s)[0] }}|{{ n == 1 ? \"one\" : n == 3 ? \"three\" : \"many\" }}|@if(\"k\" == s)Y@elseif([3].contains(n))E@else N@end|@each(x in [1, n])<{{ x }}>@end|@for(i = 0; i < n; i++)({{ i }})@end|@each(x in [])@else{{ s }}@end|{{ v = [n, s] }}{{ v }}|{{ w = {k: n} }}{{ w.k }}",
@@ -214,6 +215,9 @@ func histOps() []histOp {
 		// one page with the data buried in literals, calls on literal receivers, conditions and loop headers of every shape
 		{"String(shapes, n=1 s=k b=true)", str("shapes", func() map[string]any { return map[string]any{"n": 1, "s": "k", "b": true} })},
 		{"String(shapes, n=3 s=z b=false)", str("shapes", func() map[string]any { return map[string]any{"n": 3, "s": "z", "b": false} })},
+		// a page without @use that holds inserts inside its blocks, rendered more than once
+		{"String(strayinsert, n=1)", str("strayinsert", func() map[string]any { return map[string]any{"show": true, "n": 1} })},
+		{"String(strayinsert, n=2)", str("strayinsert", func() map[string]any { return map[string]any{"show": true, "n": 2} })},
 		// literals whose values are prefix expressions over the data
 		{"String(box, shift=2)", str("box", func() map[string]any { return map[string]any{"shift": 2, "flag": true} })},
 		{"String(box, shift=5)", str("box", func() map[string]any { return map[string]any{"shift": 5, "flag": false} })},
